@@ -1,6 +1,7 @@
 package main
 
 import (
+	"sort"
 	"fmt"
 	"os"
 	"go/types"
@@ -270,6 +271,36 @@ func (ft *funcTrans) call(in ssa.CallInstruction, val *ssa.Call) {
 	if val != nil {
 		ft.havocValue(val, "")
 		v := ft.vals[val]
+		if c.Pure {
+			// a pure callee is a function of its arguments and the heap: the same call in the
+			// same state (no write in between) returns the same value
+			var kb strings.Builder
+			kb.WriteString(name)
+			for _, a := range actuals {
+				kb.WriteString("|" + a.S)
+			}
+			var hs []string
+			for h, sym := range st.heaps {
+				hs = append(hs, h+"="+sym)
+			}
+			sort.Strings(hs)
+			kb.WriteString("|" + strings.Join(hs, "|"))
+			key := kb.String()
+			if ft.pureCache == nil {
+				ft.pureCache = map[string]*Val{}
+			}
+			if prev, ok := ft.pureCache[key]; ok {
+				if v.Tup != nil && prev.Tup != nil && len(v.Tup) == len(prev.Tup) {
+					for i := range v.Tup {
+						ft.assume(fmt.Sprintf("(= %s %s)", v.Tup[i].T.S, prev.Tup[i].T.S))
+					}
+				} else if v.Tup == nil && prev.Tup == nil {
+					ft.assume(fmt.Sprintf("(= %s %s)", v.T.S, prev.T.S))
+				}
+			} else {
+				ft.pureCache[key] = v
+			}
+		}
 		if v.Tup != nil {
 			for i, e := range v.Tup {
 				envPost[fmt.Sprintf("result%d", i)] = e.T
@@ -631,18 +662,37 @@ func (ft *funcTrans) appendOp(com *ssa.CallCommon, val *ssa.Call) {
 	st.alloc = na
 	ncap := w.declConstRaw(w.fresh("cap"), ix)
 	w.addFact(w.ile(newLen, ncap))
-	res := fmt.Sprintf("(ite %s (mk-slice %s %s %s %s) (mk-slice %s %s %s %s))", fits, sa, so, newLen, sc, r, w.ilit(0), newLen, ncap)
-	ft.define(val, Term{res, w.sortOf(val.Type())})
+	// the result and the new heap are introduced by guarded equations rather than ite terms: solvers
+	// eliminate "x = ite(..)" definitions and lift the ite out of selects, which destroys the
+	// quantifier patterns that mention the result
+	ft.havocValue(val, "")
+	resS := ft.vals[val].T.S
+	w.addFact(fmt.Sprintf("(=> %s (= %s (mk-slice %s %s %s %s)))", fits, resS, sa, so, newLen, sc))
+	w.addFact(fmt.Sprintf("(=> (not %s) (= %s (mk-slice %s %s %s %s)))", fits, resS, r, w.ilit(0), newLen, ncap))
 	// contents
 	nw := ft.newHeapVersion(st, h)
 	inPlace := w.declConstRaw(w.fresh("arrIn"), "(Array "+ix+" "+es.Name+")")
 	moved := w.declConstRaw(w.fresh("arrNew"), "(Array "+ix+" "+es.Name+")")
-	w.addFact(fmt.Sprintf("(= %s (ite %s (store %s %s %s) (store %s %s %s)))", nw, fits, E, sa, inPlace, E, r, moved))
+	w.addFact(fmt.Sprintf("(=> %s (= %s (store %s %s %s)))", fits, nw, E, sa, inPlace))
+	w.addFact(fmt.Sprintf("(=> (not %s) (= %s (store %s %s %s)))", fits, nw, E, r, moved))
 	oldArr := fmt.Sprintf("(select %s %s)", E, sa)
 	srcArr := fmt.Sprintf("(select %s %s)", E, ta)
 	if isSingletonArg(com.Args[1]) {
 		w.addFact(fmt.Sprintf("(= %s %s)", tl, w.ilit(1)))
 		w.addFact(fmt.Sprintf("(= %s (store %s %s (select %s %s)))", inPlace, oldArr, w.iadd(so, sl), srcArr, to))
+		if !w.BV {
+			// derived facts in the shape contracts use (element k of the result, addressed with sidx):
+			// the old elements are those of s in the heap before the temporary varargs array existed
+			// (that array is fresh, so s's array is the same there), the last one is the appended value
+			if eb, ok := ft.varargBefore[com.Args[1].(*ssa.Slice).X]; ok {
+				resT := ft.vals[val].T.S
+				ra, ro := "(s-arr "+resT+")", "(s-off "+resT+")"
+				same := fmt.Sprintf("(= (select %s %s) (select %s %s))", E, sa, eb, sa)
+				w.addFact(fmt.Sprintf("(=> %s (forall ((j!c %s)) (! (=> (and (<= 0 j!c) (< j!c %s)) (= (select (select %s %s) (sidx %s j!c)) (select (select %s %s) (sidx %s j!c)))) :pattern ((select (select %s %s) (sidx %s j!c))))))",
+					same, ix, sl, nw, ra, ro, eb, sa, so, nw, ra, ro))
+				w.addFact(fmt.Sprintf("(= (select (select %s %s) (sidx %s %s)) (select %s %s))", nw, ra, ro, sl, srcArr, to))
+			}
+		}
 	} else {
 		j := "j!a"
 		start := w.iadd(so, sl)
@@ -656,7 +706,7 @@ func (ft *funcTrans) appendOp(com *ssa.CallCommon, val *ssa.Call) {
 		c1 := fmt.Sprintf("(and %s %s)", w.ile(w.ilit(0), j), w.ilt(j, sl))
 		c2 := fmt.Sprintf("(and %s %s)", w.ile(sl, j), w.ilt(j, newLen))
 		w.addFact(fmt.Sprintf("(forall ((%s %s)) (! (and (=> %s (= (select %s %s) (select %s %s))) (=> %s (= (select %s %s) (select %s %s)))) :pattern ((select %s %s))))",
-			j, ix, c1, moved, j, oldArr, w.iadd(so, j), c2, moved, j, srcArr, w.iadd(to, w.isub(j, sl)), moved, j))
+			j, ix, c1, moved, j, oldArr, w.sidx(so, j), c2, moved, j, srcArr, w.iadd(to, w.isub(j, sl)), moved, j))
 	}
 }
 
